@@ -143,6 +143,20 @@ def err_code(e):
     return 9
 
 
+def reorder(dct, how, first):
+    """the same dictionary with another insertion order: 0 as built, 1 the keys selected by `first` first
+    (write traces before read traces), 2 reversed, 3 a fixed shuffle"""
+    items = list(dct.items())
+    if how == 1:
+        items = [kv for kv in items if first(kv[0])] + [kv for kv in items if not first(kv[0])]
+    elif how == 2:
+        items.reverse()
+    elif how == 3:
+        import random
+        random.Random(len(items) * 7919 + 13).shuffle(items)
+    return dict(items)
+
+
 def traffic_run(case, mode, cap, d, fns, formats):
     """returns [[per tensor [read|None, write|None]], overflows, leftover files] or [-1, code]"""
     from fibertree.model.traffic import Traffic
@@ -157,6 +171,8 @@ def traffic_run(case, mode, cap, d, fns, formats):
         for acc in ("read", "write"):
             if (bi, acc) in fns:
                 trace_fns[(tn, rname(b["r"]), TYPES[b["type"]], acc)] = fns[(bi, acc)]
+    trace_fns = reorder(trace_fns, case.get("dorder", 0), lambda k: k[3] == "write")
+    formats = reorder(formats, case.get("dorder", 0), lambda k: False)
     before = sorted(os.listdir(d))
     fn = Traffic.buffetTraffic if mode == "buffet" else Traffic.cacheTraffic
     try:
